@@ -191,3 +191,44 @@ impl HonestNet {
         v
     }
 }
+
+/// Watches the proof requests the client sends after a whole-network fork switch: a request whose start
+/// header lies on the new branch (start rebased onto a remembered last-N header) is answered without a
+/// reorg section, one whose start is the client's tip on the abandoned branch gets a reorg section.
+#[derive(Default)]
+pub struct ForkWatch {
+    /// (index of the new main chain, fork point)
+    pub switched: Option<(usize, u64)>,
+    pub rebased_start: bool,
+    pub reorg_section_requested: bool,
+}
+
+impl super::super::world::Hook for ForkWatch {
+    fn on_sent(&mut self, w: &mut World, sent: &super::super::net::Sent) {
+        let (main, at) = match self.switched {
+            Some(x) => x,
+            None => return,
+        };
+        if super::super::net::P::of(sent.proto) != Some(super::super::net::P::Lc) {
+            return;
+        }
+        if let Ok(m) = ckb_types::packed::LightClientMessageReader::from_compatible_slice(&sent.data) {
+            if let ckb_types::packed::LightClientMessageUnionReader::GetLastStateProof(r) = m.to_enum() {
+                let c = &w.chains[main];
+                let last_on_new = c.num_of(&r.last_hash().to_entity()).map(|n| n > at).unwrap_or(false);
+                if !last_on_new {
+                    return;
+                }
+                let start_number: u64 = r.start_number().unpack();
+                if c.num_of(&r.start_hash().to_entity()).is_some() {
+                    if start_number <= at {
+                        self.rebased_start = true;
+                    }
+                } else {
+                    self.reorg_section_requested = true;
+                }
+            }
+        }
+    }
+}
+
